@@ -78,6 +78,24 @@ def merge_refuse(res, rng, tier):
                     for j in range(3):
                         o.add(bytes([j, 7]) * (j + 1), j + 1)
                 sa, sb = _arrays(a), _arrays(b)
+
+                def answers(o):
+                    """what the operand ANSWERS (queries, bookkeeping) — 'unchanged' must hold for these too, not only for the arrays:
+                    a sketch that keeps caches (heavy hitters' candidate set) can be damaged without touching a table"""
+                    out = []
+                    if hasattr(o, "registers"):
+                        out.append(fbits(o.query()))
+                    else:
+                        mk_ = int(o.max_key_len) if hasattr(o, "lhh") else 99
+                        out.append([fbits(o[(bytes([j, 7]) * (j + 1))[:mk_]]) for j in range(3)])
+                        out.append([int(o.n_added()), int(o.n_records())])
+                        if hasattr(o, "lhh"):
+                            out.append([(k.hex(), int(c)) for k, c in o.query(5)])
+                            out.append([(k.hex(), int(c)) for k, c in o.query(5, 1)])
+                            out.append([(k.hex(), int(c)) for k, c in o.query(5)])
+                    return out
+
+                qa, qb = answers(a), answers(b)      # also populates the query caches before the merge
                 try:
                     a.merge(b)
                     got = "accept"
@@ -96,6 +114,9 @@ def merge_refuse(res, rng, tier):
                 if got != "accept":
                     if _arrays(a) != sa or _arrays(b) != sb:
                         res.oracle_failures.append({"pid": "C15", "what": f"C15 refused merge {da}.merge({db}) changed an operand", "a": da, "b": db})
+                    elif answers(a) != qa or answers(b) != qb:
+                        res.oracle_failures.append({"pid": "C15", "what": f"C15 refused merge {da}.merge({db}) left the arrays alone but changed what an operand answers "
+                                                                             f"(queries / n_added / n_records before {qa} {qb}, after {answers(a)} {answers(b)})", "a": da, "b": db})
                 elif _arrays(b) != sb:
                     res.oracle_failures.append({"pid": "C15", "what": f"C15 accepted merge {da}.merge({db}) changed its argument", "a": da, "b": db})
 
@@ -227,6 +248,34 @@ def truncate(res, rng, tier):
                 if L == len(data) and oc != "O":
                     res.oracle_failures.append({"pid": "C20", "what": f"C20 {label}: the complete file does not load ({oc})", "label": label, "L": L})
                 del obj
+            # the truncated copy under ANOTHER name next to the complete file (`x.part`, `x.tmp`, `x` beside `x.npz` — an interrupted
+            # copy or download): the loader must open the file it is given, not a sibling
+            d = tempfile.mkdtemp(prefix="skverif_sib_", dir=TMPDIR)
+            try:
+                with open(os.path.join(d, "sk.npz"), "wb") as f:
+                    f.write(data)
+                nL = len(data)
+                for nm in ("sk.part", "sk.tmp", "sk", "sk.npz.part", "sk.bak"):
+                    for L in sorted({0, 1, 4, 30, nL // 3, nL // 2, nL - 23, nL - 22, nL - 1}):
+                        if L < 0 or L >= nL:
+                            continue
+                        pth = os.path.join(d, nm)
+                        with open(pth, "wb") as f:
+                            f.write(data[:L])
+                        for ldr in [cl] + ([ml] if ml is not None else []):
+                            oc, obj = _load_outcome(ldr, pth)
+                            n += 1
+                            if oc == "O":
+                                res.oracle_failures.append({"pid": "C20", "what": f"C20 {label}: the {L}-byte prefix stored as `{nm}` next to the complete `sk.npz` LOADED "
+                                                                                     f"(the loader did not open the file it was given)", "label": label, "L": L,
+                                                            "signature": "C20:sibling-file-loaded"})
+                            del obj
+                        os.unlink(pth)
+                res.count("prefixes_under_other_names")
+            finally:
+                for fn_ in os.listdir(d):
+                    os.unlink(os.path.join(d, fn_))
+                os.rmdir(d)
             res.nontrivial(["truncate", label, len(data)])
             res.count("prefixes", len(data) + 1)
             res.sample({"slice": "truncate", "file": label, "bytes": len(data), "outcomes": "".join(real[:8]) + "…" + "".join(real[-3:])})
@@ -486,6 +535,11 @@ def shm_slice(res, rng, tier):
             if kind != "hll":
                 qs = [plain[kk[:mkl] if kind == "hh" else kk] for kk in keys]
             for idx, o in enumerate([owner] + views):
+                if kind == "hll" and fbits(o.query()) != fbits(plain.query()):
+                    # every handle is queried at every step: a handle that remembers an estimate must notice writes made through ANOTHER handle
+                    res.oracle_failures.append({"pid": "C16", "what": f"C16 hll p={p}: after step {step} query() through {'the owner' if idx == 0 else 'view %d' % idx} = {float(o.query())!r}, "
+                                                                         f"the in-memory sketch under the same operations gives {float(plain.query())!r}", "kind": kind})
+                    break
                 if kind != "hll" and [o[kk[:mkl] if kind == "hh" else kk] for kk in keys] != qs:
                     res.oracle_failures.append({"pid": "C16", "what": f"C16 {kind} shape {w}x{d}: queries through {'the owner' if idx == 0 else 'view %d' % idx} differ from the in-memory sketch", "kind": kind})
                     break
@@ -982,8 +1036,10 @@ def cols_slice(res, rng, tier):
             res.evaluations += 1
             res.nontrivial(["cols", kind, w, d, k.hex()])
             if cols != want:
-                res.oracle_failures.append({"pid": "C14", "what": f"C14 {kind} width {w}: key {k.hex() or '-'} sits in columns {cols}, fasthash64(key, row) % width gives {want}",
-                                            "kind": kind, "w": w, "d": d, "key": k.hex()})
+                # the exact column rule is the MODEL's (and the documentation's) — C14 itself only asks for uniform, independent rows.  A different
+                # rule is therefore a broken correspondence; whether C14 fails is decided by the statistical searches below.
+                res.mismatches.append({"kind": "cols-exact", "case": {"slice": "cols", "kind": kind, "w": w, "d": d, "key": k.hex()}, "line": "column rule",
+                                       "expected": str(want), "got": str(cols)})
             ops.append([f"cols {hexk(k)} {d} {w}", " ".join(map(str, cols)), "exact"])
         res.count("cols_" + kind)
         res.sample({"slice": "cols", "kind": kind, "width": w, "depth": d})
@@ -1005,12 +1061,18 @@ def row_independence(res, rng, tier):
     t0 = time.time()
     W = 16
     nkeys = 6000 if tier == "quick" else 20000
-    for depth in ([4] if tier == "quick" else [2, 4, 8]):
+    # depths that are NOT powers of two as well (row seeds derived from the depth alias there), and a population of LONG keys
+    # (rows derived from fewer than `depth` hash evaluations show up only beyond one or two 8-byte blocks)
+    plan = [(4, "short"), (3, "short"), (7, "long"), (5, "long")] if tier == "quick" else [(d, pop) for d in (2, 3, 4, 5, 6, 7, 8) for pop in ("short", "long")]
+    for depth, pop in plan:
         c = s.CountMinLinear(W, depth)
         cols = np().zeros((nkeys, depth), np().int64)
         base = rng.randrange(2**60)
         for i in range(nkeys):
-            k = (base + i * 2654435761).to_bytes(12, "little")[: rng.choice([5, 8, 12])]
+            if pop == "short":
+                k = (base + i * 2654435761).to_bytes(12, "little")[: rng.choice([5, 8, 12])]
+            else:
+                k = (base + i * 2654435761).to_bytes(12, "little") + b"-long-key-" + bytes([i % 251, (i // 251) % 251]) + b"x" * rng.choice([1, 9, 17])
             c.query(k)
             cols[i] = c.buckets
         crit1 = _chi2_crit(W - 1)
@@ -1028,9 +1090,28 @@ def row_independence(res, rng, tier):
                 res.evaluations += 1
                 res.nontrivial(["row_independence", depth, r, r2])
                 if chi > crit2:
-                    res.oracle_failures.append({"pid": "C14", "what": f"C14 (search) rows {r},{r2}: joint column distribution of {nkeys} keys at width {W} is not uniform "
-                                                f"(chi2 {chi:.1f} > {crit2:.1f}) — the rows are not independent", "rows": [r, r2]})
-    res.slices["row_independence"] = {"keys": nkeys, "wall_s": round(time.time() - t0, 1)}
+                    res.oracle_failures.append({"pid": "C14", "what": f"C14 (search) depth {depth}, {pop} keys, rows {r},{r2}: joint column distribution of {nkeys} keys at width {W} is not "
+                                                f"uniform (chi2 {chi:.1f} > {crit2:.1f}) — the rows are not independent", "rows": [r, r2], "depth": depth, "pop": pop})
+    # degenerate rows at large widths (a hash evaluated once and cut into digits runs out of bits when width^depth > 2^64)
+    for Wbig in ([65536] if tier == "quick" else [65536, 2**20 + 7, 2**31 - 1]):
+        depth = 8
+        c = s.CountMinLinear(Wbig, depth) if Wbig <= 2**20 + 7 else None
+        if c is None:
+            continue
+        nk = 400
+        cols = np().zeros((nk, depth), np().int64)
+        base = rng.randrange(2**60)
+        for i in range(nk):
+            c.query((base + i * 40503).to_bytes(9, "little"))
+            cols[i] = c.buckets
+        for r in range(depth):
+            distinct = len(set(cols[:, r].tolist()))
+            res.evaluations += 1
+            if distinct < nk // 2:
+                res.oracle_failures.append({"pid": "C14", "what": f"C14 (search) width {Wbig} depth {depth}: row {r} sends {nk} random keys to only {distinct} distinct columns — "
+                                                                     "the row's counter is not chosen uniformly", "row": r, "width": Wbig})
+        res.nontrivial(["degenerate_rows", Wbig])
+    res.slices["row_independence"] = {"keys": nkeys, "plan": [list(x) for x in plan], "wall_s": round(time.time() - t0, 1)}
 
 
 def zipf_bound(res, rng, tier):
